@@ -326,172 +326,7 @@ func runC09(c *Ctx) {
 			})
 			// ... and the values it hands over are the block's own: objects and arrays are Go maps and slices that
 			// assignment writes in place, so a binding copied by reference is still shared
-			// the copier and the helpers it is split into (copyObject / copyArray that call it back)
-			copierGroup := func(f *ssa.Function) []*ssa.Function {
-				if f == nil || len(f.Blocks) == 0 {
-					return nil
-				}
-				group := []*ssa.Function{f}
-				eachCall(f, func(cl ssa.CallInstruction) {
-					g := staticFn(cl)
-					if g == nil || g == f || g.Pkg != f.Pkg || len(g.Blocks) == 0 {
-						return
-					}
-					back := false
-					eachCall(g, func(c2 ssa.CallInstruction) {
-						if staticFn(c2) == f {
-							back = true
-						}
-					})
-					if back {
-						group = append(group, g)
-					}
-				})
-				return group
-			}
-			isCopier := func(f *ssa.Function) bool {
-				group := copierGroup(f)
-				if group == nil {
-					return false
-				}
-				inGroup := map[*ssa.Function]bool{}
-				for _, g := range group {
-					inGroup[g] = true
-				}
-				mk, rec, sw := false, false, false
-				for _, h := range group {
-					for _, g := range withAnon(h) {
-						eachInstr(g, func(_ *ssa.BasicBlock, _ int, ins ssa.Instruction) {
-							switch x := ins.(type) {
-							case *ssa.MakeMap, *ssa.MakeSlice:
-								mk = true
-							case *ssa.TypeAssert:
-								if _, isMap := x.AssertedType.Underlying().(*types.Map); isMap {
-									sw = true
-								}
-							case *ssa.Call:
-								if sf := staticFn(x); sf != nil && inGroup[sf] {
-									rec = true
-								}
-							}
-						})
-					}
-				}
-				return mk && rec && sw
-			}
-			// the copier itself: every container is copied (only a nil one is handed back as it is), and a container
-			// is entered in the memo before its elements are visited (a value can contain itself)
 			checkedCopier := map[*ssa.Function]bool{}
-			var checkCopierFn func(f *ssa.Function, inGroup map[*ssa.Function]bool)
-			checkCopier := func(top *ssa.Function) {
-				if checkedCopier[top] {
-					return
-				}
-				checkedCopier[top] = true
-				inGroup := map[*ssa.Function]bool{}
-				for _, g := range copierGroup(top) {
-					inGroup[g] = true
-				}
-				for g := range inGroup {
-					checkCopierFn(g, inGroup)
-				}
-			}
-			checkCopierFn = func(f *ssa.Function, inGroup map[*ssa.Function]bool) {
-				isContainerType := func(t types.Type) bool {
-					switch u := t.Underlying().(type) {
-					case *types.Map:
-						kb, ok := u.Key().Underlying().(*types.Basic)
-						return ok && kb.Kind() == types.String && dynIface(u.Elem())
-					case *types.Slice:
-						return dynIface(u.Elem())
-					}
-					return false
-				}
-				var memo *ssa.Parameter
-				for _, p := range f.Params {
-					if _, isMap := p.Type().Underlying().(*types.Map); isMap && !isContainerType(p.Type()) {
-						memo = p
-					}
-				}
-				kk := 0
-				// the containers this function handles: what it asserts a value to, and container-typed parameters
-				var containers []ssa.Value
-				var at []token.Pos
-				eachInstr(f, func(_ *ssa.BasicBlock, _ int, ins ssa.Instruction) {
-					ta, ok := ins.(*ssa.TypeAssert)
-					if !ok || !ta.CommaOk || !isContainerType(ta.AssertedType) {
-						return
-					}
-					for _, v := range extractOf(ta, 0) {
-						containers = append(containers, v)
-						at = append(at, ta.Pos())
-					}
-				})
-				for _, p := range f.Params {
-					if isContainerType(p.Type()) {
-						containers = append(containers, p)
-						at = append(at, p.Pos())
-					}
-				}
-				for ci, v := range containers {
-					taPos := at[ci]
-					{
-						kk++
-						// (i) returned as it is only when nil
-						eachInstr(f, func(_ *ssa.BasicBlock, _ int, x ssa.Instruction) {
-							r, ok := x.(*ssa.Return)
-							if !ok || len(r.Results) == 0 {
-								return
-							}
-							if mi, ok := r.Results[0].(*ssa.MakeInterface); ok {
-								if mi.X != v {
-									return
-								}
-							} else if r.Results[0] != v {
-								return
-							}
-							q := &pathQuery{fn: f, target: func(y ssa.Instruction) bool { return y == x }, cutEdge: func(b *ssa.BasicBlock, si int) bool {
-								iff := ifOf(b)
-								if iff == nil {
-									return false
-								}
-								bo, ok := iff.Cond.(*ssa.BinOp)
-								if !ok || !((bo.X == v && isNilConst(bo.Y)) || (bo.Y == v && isNilConst(bo.X))) {
-									return false
-								}
-								return (bo.Op == token.EQL && si == 0) || (bo.Op == token.NEQ && si == 1)
-							}}
-							hit, path := q.fromEntry()
-							c.ob("C09-R2", fnKey(f)+"#container-"+itoa(kk)+"-handed-back-uncopied-only-when-nil", r.Pos(), hit == nil, "the copier hands a container back as it is on a path that has not established that it is nil (an empty one, say): the usual `$ acc = {}` accumulator is then one Go map in parent and block, and the first writes on both sides are a concurrent map write", c.blockPath(path)...)
-						})
-						// (ii) memo before the elements
-						if memo == nil {
-							c.ob("C09-R2", fnKey(f)+"#container-"+itoa(kk)+"-entered-in-the-memo-before-its-elements", taPos, false, "the copier keeps no record of the containers it has entered: a value that contains itself (`$ node.parent = node`, `a[0] = a`) is copied for ever - a stack overflow that no recover() stops, as soon as such a value is in scope of an async block")
-							continue
-						}
-						var rec []ssa.Instruction
-						eachInstr(f, func(_ *ssa.BasicBlock, _ int, x ssa.Instruction) {
-							if cl, ok := x.(*ssa.Call); ok && staticFn(cl) != nil && inGroup[staticFn(cl)] && len(cl.Call.Args) > 0 {
-								// a call on an element of this container (not the hand-over of the container itself to a helper)
-								if cl.Call.Args[0] != v && derivesFrom(cl.Call.Args[0], func(z ssa.Value) bool { return z == v }) {
-									if mi, ok := cl.Call.Args[0].(*ssa.MakeInterface); ok && mi.X == v {
-										return
-									}
-									rec = append(rec, x)
-								}
-							}
-						})
-						for ri, rc := range rec {
-							q := &pathQuery{fn: f, target: func(y ssa.Instruction) bool { return y == rc }, stop: func(y ssa.Instruction) bool {
-								mu, ok := y.(*ssa.MapUpdate)
-								return ok && mu.Map == ssa.Value(memo)
-							}}
-							hit, path := q.fromEntry()
-							c.ob("C09-R2", fnKey(f)+"#container-"+itoa(kk)+"-entered-in-the-memo-before-its-elements-"+itoa(ri+1), rc.Pos(), hit == nil, "the copier visits the elements of a container before (or without) recording the container in its memo: a value that contains itself is copied for ever - a stack overflow that no recover() stops", c.blockPath(path)...)
-						}
-					}
-				}
-			}
 			nBind := 0
 			eachInstr(fn, func(_ *ssa.BasicBlock, _ int, ins ssa.Instruction) {
 				mu, ok := ins.(*ssa.MapUpdate)
@@ -500,7 +335,10 @@ func runC09(c *Ctx) {
 				}
 				derivesFrom(mu.Value, func(v ssa.Value) bool {
 					if cl, ok := v.(*ssa.Call); ok && isCopier(staticFn(cl)) {
-						checkCopier(staticFn(cl))
+						if !checkedCopier[staticFn(cl)] {
+							checkedCopier[staticFn(cl)] = true
+							checkCopier(c, "C09-R2", staticFn(cl))
+						}
 					}
 					return false
 				})
@@ -784,5 +622,169 @@ func awaitReadsAfterDone(c *Ctx, rule string, fn *ssa.Function, typ, doneField s
 	}
 	if len(plainRecv)+len(sels) == 0 {
 		c.ob(rule, fnKey(fn)+"#waits-on-"+doneField, fn.Pos(), false, "no receive from "+doneField+" in an awaiting function")
+	}
+}
+
+// the copier and the helpers it is split into (copyObject / copyArray that call it back)
+func copierGroup(f *ssa.Function) []*ssa.Function {
+	if f == nil || len(f.Blocks) == 0 {
+		return nil
+	}
+	group := []*ssa.Function{f}
+	eachCall(f, func(cl ssa.CallInstruction) {
+		g := staticFn(cl)
+		if g == nil || g == f || g.Pkg != f.Pkg || len(g.Blocks) == 0 {
+			return
+		}
+		back := false
+		eachCall(g, func(c2 ssa.CallInstruction) {
+			if staticFn(c2) == f {
+				back = true
+			}
+		})
+		if back {
+			group = append(group, g)
+		}
+	})
+	return group
+}
+func isCopier(f *ssa.Function) bool {
+	group := copierGroup(f)
+	if group == nil {
+		return false
+	}
+	inGroup := map[*ssa.Function]bool{}
+	for _, g := range group {
+		inGroup[g] = true
+	}
+	mk, rec, sw := false, false, false
+	for _, h := range group {
+		for _, g := range withAnon(h) {
+			eachInstr(g, func(_ *ssa.BasicBlock, _ int, ins ssa.Instruction) {
+				switch x := ins.(type) {
+				case *ssa.MakeMap, *ssa.MakeSlice:
+					mk = true
+				case *ssa.TypeAssert:
+					if _, isMap := x.AssertedType.Underlying().(*types.Map); isMap {
+						sw = true
+					}
+				case *ssa.Call:
+					if sf := staticFn(x); sf != nil && inGroup[sf] {
+						rec = true
+					}
+				}
+			})
+		}
+	}
+	return mk && rec && sw
+}
+
+// the copier itself: every container is copied (only a nil one is handed back as it is), and a container
+// is entered in the memo before its elements are visited (a value can contain itself)
+// checkCopier holds the snapshot copier (and the helpers it is split into) to the nil-only passthrough and
+// memo-before-elements clauses, under the given rule id.
+func checkCopier(c *Ctx, rule string, top *ssa.Function) {
+	inGroup := map[*ssa.Function]bool{}
+	for _, g := range copierGroup(top) {
+		inGroup[g] = true
+	}
+	for g := range inGroup {
+		checkCopierFn(c, rule, g, inGroup)
+	}
+}
+func checkCopierFn(c *Ctx, rule string, f *ssa.Function, inGroup map[*ssa.Function]bool) {
+	isContainerType := func(t types.Type) bool {
+		switch u := t.Underlying().(type) {
+		case *types.Map:
+			kb, ok := u.Key().Underlying().(*types.Basic)
+			return ok && kb.Kind() == types.String && dynIface(u.Elem())
+		case *types.Slice:
+			return dynIface(u.Elem())
+		}
+		return false
+	}
+	var memo *ssa.Parameter
+	for _, p := range f.Params {
+		if _, isMap := p.Type().Underlying().(*types.Map); isMap && !isContainerType(p.Type()) {
+			memo = p
+		}
+	}
+	kk := 0
+	// the containers this function handles: what it asserts a value to, and container-typed parameters
+	var containers []ssa.Value
+	var at []token.Pos
+	eachInstr(f, func(_ *ssa.BasicBlock, _ int, ins ssa.Instruction) {
+		ta, ok := ins.(*ssa.TypeAssert)
+		if !ok || !ta.CommaOk || !isContainerType(ta.AssertedType) {
+			return
+		}
+		for _, v := range extractOf(ta, 0) {
+			containers = append(containers, v)
+			at = append(at, ta.Pos())
+		}
+	})
+	for _, p := range f.Params {
+		if isContainerType(p.Type()) {
+			containers = append(containers, p)
+			at = append(at, p.Pos())
+		}
+	}
+	for ci, v := range containers {
+		taPos := at[ci]
+		{
+			kk++
+			// (i) returned as it is only when nil
+			eachInstr(f, func(_ *ssa.BasicBlock, _ int, x ssa.Instruction) {
+				r, ok := x.(*ssa.Return)
+				if !ok || len(r.Results) == 0 {
+					return
+				}
+				if mi, ok := r.Results[0].(*ssa.MakeInterface); ok {
+					if mi.X != v {
+						return
+					}
+				} else if r.Results[0] != v {
+					return
+				}
+				q := &pathQuery{fn: f, target: func(y ssa.Instruction) bool { return y == x }, cutEdge: func(b *ssa.BasicBlock, si int) bool {
+					iff := ifOf(b)
+					if iff == nil {
+						return false
+					}
+					bo, ok := iff.Cond.(*ssa.BinOp)
+					if !ok || !((bo.X == v && isNilConst(bo.Y)) || (bo.Y == v && isNilConst(bo.X))) {
+						return false
+					}
+					return (bo.Op == token.EQL && si == 0) || (bo.Op == token.NEQ && si == 1)
+				}}
+				hit, path := q.fromEntry()
+				c.ob(rule, fnKey(f)+"#container-"+itoa(kk)+"-handed-back-uncopied-only-when-nil", r.Pos(), hit == nil, "the copier hands a container back as it is on a path that has not established that it is nil (an empty one, say): the usual `$ acc = {}` accumulator is then one Go map in parent and block, and the first writes on both sides are a concurrent map write", c.blockPath(path)...)
+			})
+			// (ii) memo before the elements
+			if memo == nil {
+				c.ob(rule, fnKey(f)+"#container-"+itoa(kk)+"-entered-in-the-memo-before-its-elements", taPos, false, "the copier keeps no record of the containers it has entered: a value that contains itself (`$ node.parent = node`, `a[0] = a`) is copied for ever - a stack overflow that no recover() stops, as soon as such a value is in scope of an async block")
+				continue
+			}
+			var rec []ssa.Instruction
+			eachInstr(f, func(_ *ssa.BasicBlock, _ int, x ssa.Instruction) {
+				if cl, ok := x.(*ssa.Call); ok && staticFn(cl) != nil && inGroup[staticFn(cl)] && len(cl.Call.Args) > 0 {
+					// a call on an element of this container (not the hand-over of the container itself to a helper)
+					if cl.Call.Args[0] != v && derivesFrom(cl.Call.Args[0], func(z ssa.Value) bool { return z == v }) {
+						if mi, ok := cl.Call.Args[0].(*ssa.MakeInterface); ok && mi.X == v {
+							return
+						}
+						rec = append(rec, x)
+					}
+				}
+			})
+			for ri, rc := range rec {
+				q := &pathQuery{fn: f, target: func(y ssa.Instruction) bool { return y == rc }, stop: func(y ssa.Instruction) bool {
+					mu, ok := y.(*ssa.MapUpdate)
+					return ok && mu.Map == ssa.Value(memo)
+				}}
+				hit, path := q.fromEntry()
+				c.ob(rule, fnKey(f)+"#container-"+itoa(kk)+"-entered-in-the-memo-before-its-elements-"+itoa(ri+1), rc.Pos(), hit == nil, "the copier visits the elements of a container before (or without) recording the container in its memo: a value that contains itself is copied for ever - a stack overflow that no recover() stops", c.blockPath(path)...)
+			}
+		}
 	}
 }
